@@ -75,25 +75,51 @@ def judge_fan(area, origin, which='fancy'):
         vis = VF['raytracing'](Grid.from_shape((h, w)), pos)
         if not np.asarray(vis).all() or np.asarray(vis).shape != (h, w):
             return n, 'unobstructed ray-traced view does not show every cell'
+        # ... in both counting modes: when nothing obstructs, every ray through a cell is lit (all of them: ratio 1)
+        vis = np.asarray(VF['raytracing'](Grid.from_shape((h, w)), pos, absolute_counts=False, threshold=1))
+        if not vis.all() or vis.shape != (h, w):
+            hidden = [(int(y), int(x)) for y, x in zip(*np.where(~vis))][:4]
+            return n, f'unobstructed ray-traced view in ratio mode (absolute_counts=False, threshold 1) does not show cells {hidden}'
     return n, None
 
 
 QUERIES = [((1, 1), ((0, 2), (0, 2))), ((0, 1), ((0, 2), (0, 2))), ((1, 1), ((0, 1), (0, 2))), ((1, 1), ((0, 2), (0, 3))),
-           ((0, 0), ((0, 0), (0, 0)))]
+           ((0, 0), ((0, 0), (0, 0))),
+           # queries whose origin lies outside the area: whatever they answer (an error, a fan), they are part of "any order of
+           # earlier ray queries" and must leave the answers to the valid queries alone
+           ((5, 1), ((0, 2), (0, 2))), ((-1, -4), ((0, 2), (0, 3)))]
+VALID_QUERIES = 5
 
 
 def judge_history(seq):
     as_t = lambda rs: tuple(tuple(p.yx for p in r) for r in rs)  # noqa: E731
     getattr(RT.cached_compute_rays_fancy, 'cache_clear', lambda: None)()  # a memoiser without cache_clear is legitimate
-    for qi in seq:
+    # the answers to the valid queries, taken before the history starts
+    truth = {qi: as_t(RT.compute_rays_fancy(Position(*QUERIES[qi][0]), Area(*QUERIES[qi][1]))) for qi in set(seq) if qi < VALID_QUERIES}
+    for i, qi in enumerate(seq):
         origin, area = QUERIES[qi]
+        if qi >= VALID_QUERIES:
+            for fn in (RT.cached_compute_rays_fancy, RT.compute_rays_fancy):
+                try:
+                    fn(Position(*origin), Area(*area))
+                except Exception:  # noqa: BLE001 -- rejected: fine
+                    pass
+            continue
         got = RT.cached_compute_rays_fancy(Position(*origin), Area(*area))
-        if as_t(got) != as_t(RT.compute_rays_fancy(Position(*origin), Area(*area))):
+        unc = as_t(RT.compute_rays_fancy(Position(*origin), Area(*area)))
+        if as_t(got) != unc:
             return f'history {seq}: cached answer to query {QUERIES[qi]} differs from the uncached computation'
+        if unc != truth[qi]:
+            return (f'history {seq}: the answer to query {QUERIES[qi]} at step {i} differs from the answer to the same query before '
+                    f'the history started (earlier queries{" - one with an origin outside its area -" if any(q >= VALID_QUERIES for q in seq[:i]) else ""} changed it)')
         for ray in got:
             m = ray_law(ray, origin, area)
             if m:
                 return f'history {seq}: cached ray invalid: {m}'
+        covered = {p.yx for ray in got for p in ray}
+        want = {(y, x) for y in range(area[0][0], area[0][1] + 1) for x in range(area[1][0], area[1][1] + 1)}
+        if covered != want:
+            return f'history {seq}: the fan for query {QUERIES[qi]} misses cells {sorted(want - covered)[:6]}'
     return None
 
 
@@ -133,10 +159,11 @@ def _work(job):
 def judge_large_floor(h, w):
     """an unobstructed ray-traced view shows everything - also for view sizes with 128 / 256 / 512 rays"""
     for origin in ((h - 1, w // 2), (0, 0), (h // 2, w // 2)):
-        vis = np.asarray(VF['raytracing'](Grid.from_shape((h, w)), Position(*origin)))
-        if vis.shape != (h, w) or not vis.all():
-            hidden = [(int(y), int(x)) for y, x in zip(*np.where(~vis))][:4]
-            return f'unobstructed {h}x{w} ray-traced view from {origin} does not show cells {hidden}'
+        for kw in ({}, {'absolute_counts': False, 'threshold': 1}):
+            vis = np.asarray(VF['raytracing'](Grid.from_shape((h, w)), Position(*origin), **kw))
+            if vis.shape != (h, w) or not vis.all():
+                hidden = [(int(y), int(x)) for y, x in zip(*np.where(~vis))][:4]
+                return f'unobstructed {h}x{w} ray-traced view from {origin} {kw or ""} does not show cells {hidden}'
     return None
 
 
@@ -152,6 +179,11 @@ def replay(case):
         return judge_fan(tuple(map(tuple, case['area'])), tuple(case['origin']), case['which'])[1]
     if case['kind'] == 'history':
         return judge_history(case['seq'])
+    if case['kind'] == 'history_chain':
+        msg = None
+        for seq in case['seqs']:
+            msg = judge_history(list(seq))
+        return msg
     raise ValueError(case['kind'])
 
 
@@ -199,17 +231,26 @@ def run(rep, tier, seed):
         out = []
         for seq in chunk:
             m = judge_history(seq)
-            if m and len(out) < 2:
-                out.append({'kind': 'history', 'seq': seq, 'message': m, 'sig': {'fn': 'cache'}, 'simplicity': len(seq)})
+            if m:
+                # only the FIRST failure of this (fresh) process: nothing it depends on happened before its own history
+                out.append({'kind': 'history', 'seq': seq, 'message': m, 'sig': {'fn': 'cache'}, 'simplicity': len(seq),
+                            'chain': [list(q) for q in chunk[:chunk.index(seq) + 1]]})
+                break
         return out
 
-    for fl in pmap(hist_work, [seqs[i::32] for i in range(32)]):
+    for fl in pmap(hist_work, [seqs[i::32] for i in range(32)], fresh=True):
         fails.extend(fl)
     fails.sort(key=lambda f: f.get('simplicity', 0))
     # a fan that fails during the exploration but not in isolation depends on the queries made before it in the process
     # (a cache serving the wrong entry): its replay is the query history of its job
     fixed = []
     for f in fails:
+        chain = f.pop('chain', None)
+        if f['kind'] == 'history' and chain and len(chain) > 1 and not replay(f):
+            # the histories that ran before it in its (fresh) process are part of its history
+            f = {'kind': 'history_chain', 'seqs': chain, 'message': f['message'] + f' [only after the {len(chain) - 1} query histories that '
+                 'ran before it in the same process: an earlier query changed the answers for good]',
+                 'sig': dict(f['sig'], history_dependent=True), 'simplicity': f.get('simplicity', 0)}
         hist = f.pop('history', None)
         if f['kind'] == 'fan' and not replay(f) and hist:
             g = {'kind': 'fan_history', 'which': f['which'], 'history': hist, 'message': f['message'] + ' [only after the earlier '
